@@ -206,6 +206,10 @@ def per_member_verified(F, S):
 def check(F, run, tier):
     S = Summaries(F)
     run.declined = DECLINED
+    from ..rules_valid import verifier_arguments
+    _va, _vn = verifier_arguments(F)
+    run.add(_va)
+    run.floor("verifier-arguments", _vn, 30)
     run.explanation = (
         "Static analysis of the archive readers. Decided: R-INDEX (every subscript of an archive table reachable from a "
         "public entry point is entailed to be < size() by guard facts plus class invariants that are themselves derived "
